@@ -17,9 +17,19 @@ package rewrite
 //@   ensures gen.n == old(gen.n) + 1
 //@   ensures result.Arity == arity && result.Symbol == tmpName(sym.Symbol, gen.n)
 
+// A body counts as a single atom - whose facts the transform reads straight from the store - only if reading the
+// facts IS solving the body: one positive atom whose arguments are constants or pairwise different variables (a
+// repeated variable needs unification, a function expression needs evaluation; such a body goes through the internal
+// relation like any other).
+//@ spec func plainArgs(a ast.Atom, n int) bool =
+//@      (forall k int :: 0 <= k && k < n ==> !(a.Args[k] is ast.ApplyFn)) &&
+//@      (forall k int, l int :: 0 <= k && k < l && l < n && a.Args[k] is ast.Variable && a.Args[l] is ast.Variable ==> (a.Args[k] as ast.Variable) != (a.Args[l] as ast.Variable))
 //@ func isSingleAtomPremise(premises)
 //@   pure
-//@   ensures result == (len(premises) == 1 && premises[0] is ast.Atom)
+//@   opt nosafety
+//@   ensures result ==> len(premises) == 1 && premises[0] is ast.Atom && plainArgs(premises[0] as ast.Atom, len((premises[0] as ast.Atom).Args))
+//@   loop 1 invariant plainArgs(atom, rangeindex + 1)
+//@   loop 1 invariant forall k int :: 0 <= k && k < rangeindex + 1 && atom.Args[k] is ast.Variable ==> seen[atom.Args[k] as ast.Variable]
 
 // A rule is split when it has a do-transform and a body other than one atom.
 //@ spec func split(c ast.Clause) bool = !(c.Transform == nil || c.Transform.IsLetTransform() || isSingleAtomPremise(c.Premises))
